@@ -292,6 +292,26 @@ pub fn run(ctx: &Ctx) -> Report {
             sealed.push((mb.build(), c.clone(), format!("builder key sweep algo{algo}")));
         }
     }
+    // interleavings: operation A under credentials X stopped at each of its tracing points while
+    // operation B under credentials Y runs to completion on another thread (engine_in::preempt)
+    let mut inter: Vec<Case> = Vec::new();
+    for ak in 0..4i64 {
+        for ac in [0i64, 3] {
+            let ca = il_creds(ac);
+            let (n_points, _) = crate::engine_in::preempt::count_points(|| il_op(ak, &ca));
+            for k in 0..n_points {
+                for (bk, bc) in [(0i64, 1i64), (1, 1), (2, 1), (2, 2), (0, 4), (2, 4), (3, 1), (2, 0)] {
+                    inter.push(Case::new("interleave", vec![]).args(&[k as i64, ak, ac, bk, bc]));
+                }
+            }
+        }
+    }
+    let n_inter = inter.len();
+    // one at a time: the scheduler stops a thread at a time and nothing else should run the library
+    let mut acc_inter = Acc::default();
+    for c in &inter {
+        judge_guarded(judge, c, &mut acc_inter);
+    }
     let n_sealed = sealed.len() + ref_sealed.len();
     let thorough = ctx.tier == Tier::Thorough;
     let mut all: Vec<(Vec<u8>, Creds, String, bool)> = sealed.into_iter().map(|(b, c, d)| (b, c, d, true)).collect();
@@ -457,11 +477,12 @@ pub fn run(ctx: &Ctx) -> Report {
             judge_guarded(judge, &Case::new("validate", b.clone()).text(&[&creds_text(c), "unsealed"]), &mut acc2);
         }
     }
-    let acc = acc1.merge(acc2);
+    let acc = acc1.merge(acc2).merge(acc_inter);
+    let _ = n_inter;
     Report {
         acc,
         exhaustive: true,
-        rule: "8 bodies x fingerprint yes/no x 8 credentials x {SHA-1, SHA-256, both} sealed by the real builder (plus the cross product 4 classes x 3 methods x 8 credentials x 3 sealings x fingerprint x 3 bodies with a reduced fault set: bit flips of the type / length field and of the integrity attributes, alternative HMAC values and keys) (build(), and write_into() a used buffer before / after into_owned()); reference-serialised messages with SHA-256 truncated to 12..36 bytes, MI256-before-MI order and mixed correctness; on each: every single-bit flip and every byte value at every position from offset 0 through the end of the last integrity attribute, plausible alternative HMAC values in each integrity attribute (other length fields, other ranges, the other hash), every corrupted buffer of a fingerprinted message also with its FINGERPRINT recomputed, CRC-preserving forgeries (a covered byte changed and the tail of the HMAC chosen so that the FINGERPRINT value stays), each corrupted copy validated right after its original, up to 25 near-miss keys (case, trailing space / NUL, prefixes of 16/20/32/63/64/65/128 bytes, other credential kind, swapped parts); decorated credentials (quotes, blanks, trailing dot, mixed case, non-ASCII in each part) with their cleaned forms as alternative keys; key-length sweep: short-term passwords of every length 0..=140 and long-term credentials with parts of 0..200 bytes x {SHA-1, SHA-256, both} x {builder, reference serialiser}; unsealed bodies x 8 credentials; distinct_nontrivial = sealed buffers".into(),
+        rule: "8 bodies x fingerprint yes/no x 8 credentials x {SHA-1, SHA-256, both} sealed by the real builder (plus the cross product 4 classes x 3 methods x 8 credentials x 3 sealings x fingerprint x 3 bodies with a reduced fault set: bit flips of the type / length field and of the integrity attributes, alternative HMAC values and keys) (build(), and write_into() a used buffer before / after into_owned()); reference-serialised messages with SHA-256 truncated to 12..36 bytes, MI256-before-MI order and mixed correctness; on each: every single-bit flip and every byte value at every position from offset 0 through the end of the last integrity attribute, plausible alternative HMAC values in each integrity attribute (other length fields, other ranges, the other hash), every corrupted buffer of a fingerprinted message also with its FINGERPRINT recomputed, CRC-preserving forgeries (a covered byte changed and the tail of the HMAC chosen so that the FINGERPRINT value stays), each corrupted copy validated right after its original, up to 25 near-miss keys (case, trailing space / NUL, prefixes of 16/20/32/63/64/65/128 bytes, other credential kind, swapped parts); decorated credentials (quotes, blanks, trailing dot, mixed case, non-ASCII in each part) with their cleaned forms as alternative keys; key-length sweep: short-term passwords of every length 0..=140 and long-term credentials with parts of 0..200 bytes x {SHA-1, SHA-256, both} x {builder, reference serialiser}; unsealed bodies x 8 credentials; single-preemption interleavings: validate (SHA-1 + FINGERPRINT, SHA-256), seal and parse under long- and short-term credentials stopped at every tracing point of the library while one of eight other operations under other credentials runs to completion on another thread; distinct_nontrivial = sealed buffers".into(),
         bounds: json!({"sealed_buffers": n_sealed, "unsealed": unsealed.len(), "faults": if thorough { "single bit, all byte values, length-bit x any-bit pairs" } else { "single bit, all byte values" }}),
         assumptions: vec!["HMAC-SHA1/SHA-256 collision resistance (no forgery that needs to break the MAC is explored)".into(), "keys outside the alternative-key alphabet are not explored".into()],
         ..Default::default()
@@ -531,8 +552,85 @@ fn force_crc(p: &mut [u8], q: usize, target: u32) -> bool {
     crc(p) == target
 }
 
+/// Credentials and operations of the interleaving family (engine_in::preempt).
+fn il_creds(i: i64) -> Creds {
+    match i {
+        0 => Creds::Long { user: "alice".into(), realm: "example.org".into(), pass: "pw-alice".into() },
+        1 => Creds::Long { user: "bob".into(), realm: "example.org".into(), pass: "pw-bob".into() },
+        2 => Creds::Long { user: "alice".into(), realm: "example.org".into(), pass: "another".into() },
+        3 => Creds::Short("short-one".into()),
+        _ => Creds::Short("short-two".into()),
+    }
+}
+
+/// One operation under credentials `c`: 0 validate a SHA-1 + FINGERPRINT message, 1 validate a SHA-256
+/// message, 2 seal with the builder (SHA-1, SHA-256, FINGERPRINT) and compare with the reference bytes,
+/// 3 parse a fingerprinted message.  Returns a description of what went wrong, if anything.
+fn il_op(kind: i64, c: &Creds) -> Option<String> {
+    let key = c.key();
+    let tid: u128 = 0x0101_0202_0303_0404_0505_0606 ^ (key.len() as u128);
+    match kind {
+        0 | 1 => {
+            let mut b = wire::encode_msg(2, 1, tid, &[(0x8022, b"interleave".to_vec())]);
+            if kind == 0 {
+                wire::append_mi(&mut b, &key);
+                wire::append_fp(&mut b);
+            } else {
+                wire::append_mi256(&mut b, &key, 32);
+            }
+            match Message::from_bytes(&b) {
+                Err(e) => Some(format!("parse failed: {e:?}")),
+                Ok(m) => match m.validate_integrity(&real::creds(c)) {
+                    Ok(_) => None,
+                    Err(e) => Some(format!("validate_integrity of a correctly sealed message: {e:?}")),
+                },
+            }
+        }
+        2 => {
+            let rc = real::creds(c);
+            let mut mb = real::builder(0, 1, tid);
+            let sw = stun_types::attribute::Software::new("interleave").unwrap();
+            mb.add_attribute(&sw).unwrap();
+            if mb.add_message_integrity(&rc, stun_types::message::IntegrityAlgorithm::Sha1).is_err() || mb.add_message_integrity(&rc, stun_types::message::IntegrityAlgorithm::Sha256).is_err() || mb.add_fingerprint().is_err() {
+                return Some("sealing refused".into());
+            }
+            let got = mb.build();
+            let mut want = wire::encode_msg(0, 1, tid, &[(0x8022, b"interleave".to_vec())]);
+            wire::append_mi(&mut want, &key);
+            wire::append_mi256(&mut want, &key, 32);
+            wire::append_fp(&mut want);
+            if got == want {
+                None
+            } else {
+                Some(format!("sealed bytes differ from the reference: {}", fmt_bytes(&got)))
+            }
+        }
+        _ => {
+            let mut b = wire::encode_msg(1, 1, tid, &[(0x0006, key.clone())]);
+            wire::append_fp(&mut b);
+            Message::from_bytes(&b).err().map(|e| format!("parse of a fingerprinted message failed: {e:?}"))
+        }
+    }
+}
+
 pub fn judge(case: &Case, acc: &mut Acc) {
     acc.evaluations += 1;
+    if case.op == "interleave" {
+        // args: k (tracing point of A at which B runs), A kind, A credentials, B kind, B credentials
+        let (k, ak, ac, bk, bc) = (case.args[0] as usize, case.args[1], case.args[2], case.args[3], case.args[4]);
+        acc.validated += 1;
+        acc.outcome("interleaving at a tracing point");
+        let ca = il_creds(ac);
+        let cb = il_creds(bc);
+        let (ra, rb) = crate::engine_in::preempt::interleave(k, || il_op(ak, &ca), move || il_op(bk, &cb));
+        if let Some(w) = ra {
+            viol!(acc, P, "interleaving/preempted-operation", case, format!("an operation under credentials #{ac} that was preempted at its tracing point {k} by an operation under credentials #{bc} on another thread went wrong"), "the result it gives alone", w);
+        }
+        if let Some(Some(w)) = rb {
+            viol!(acc, P, "interleaving/preempting-operation", case, format!("an operation under credentials #{bc} that ran while another thread was stopped at tracing point {k} of an operation under credentials #{ac} went wrong"), "the result it gives alone", w);
+        }
+        return;
+    }
     let buf = &case.data;
     let c = creds_parse(&case.text[0]);
     let tag = case.text.get(1).map(|s| s.as_str()).unwrap_or("?");
